@@ -658,3 +658,85 @@ def record_fields(prog, ci):
             if isinstance(st, ast.AnnAssign) and isinstance(st.target, ast.Name) and "ClassVar" not in norm(st.annotation):
                 out = [x for x in out if x[0] != st.target.id] + [(st.target.id, st.value)]
     return out
+
+
+_MATCH_COUNTER = [0]
+
+
+def lower_match(st: ast.Match):
+    """`match subject: case P if g: …` as the equivalent if/elif chain, for the pattern kinds the package could plausibly
+    use: class patterns without sub-patterns (isinstance), literal values, None/True/False, `|` alternatives, the wildcard,
+    a bare capture, `P as name`.  Returns the replacement statements, or None when a pattern is outside that fragment."""
+    import copy
+
+    pre = []
+    subj = st.subject
+    if not isinstance(subj, ast.Name):
+        _MATCH_COUNTER[0] += 1
+        tmp = f"_m{_MATCH_COUNTER[0]}_subject"
+        pre.append(ast.Assign(targets=[ast.Name(id=tmp, ctx=ast.Store())], value=subj, lineno=st.lineno, col_offset=0))
+        subj = ast.Name(id=tmp, ctx=ast.Load())
+
+    def S():
+        return copy.deepcopy(subj)
+
+    def cond(p):
+        """(test expr | None for always-true, [names captured]) or raises ValueError"""
+        if isinstance(p, ast.MatchClass):
+            if p.patterns or p.kwd_patterns:
+                raise ValueError("class pattern with sub-patterns")
+            return ast.Call(func=ast.Name(id="isinstance", ctx=ast.Load()), args=[S(), p.cls], keywords=[]), []
+        if isinstance(p, ast.MatchValue):
+            return ast.Compare(left=S(), ops=[ast.Eq()], comparators=[p.value]), []
+        if isinstance(p, ast.MatchSingleton):
+            return ast.Compare(left=S(), ops=[ast.Is()], comparators=[ast.Constant(value=p.value)]), []
+        if isinstance(p, ast.MatchAs):
+            if p.pattern is None:
+                return None, ([p.name] if p.name else [])
+            c, names = cond(p.pattern)
+            return c, names + ([p.name] if p.name else [])
+        if isinstance(p, ast.MatchOr):
+            cs = []
+            for q in p.patterns:
+                c, names = cond(q)
+                if names:
+                    raise ValueError("captures inside alternatives")
+                if c is None:
+                    return None, []
+                cs.append(c)
+            return ast.BoolOp(op=ast.Or(), values=cs), []
+        raise ValueError(type(p).__name__)
+
+    chain = None
+    tail = None
+    try:
+        for case in st.cases:
+            c, names = cond(case.pattern)
+            binds = [ast.Assign(targets=[ast.Name(id=n, ctx=ast.Store())], value=S(), lineno=st.lineno, col_offset=0) for n in names]
+            if case.guard is not None:
+                if any(isinstance(x, ast.Name) and x.id in names for x in ast.walk(case.guard)):
+                    raise ValueError("guard reads a capture")
+                c = case.guard if c is None else ast.BoolOp(op=ast.And(), values=[c, case.guard])
+            body = binds + list(case.body)
+            if c is None:
+                # irrefutable: the else-branch of everything before it
+                if tail is None:
+                    chain = body if chain is None else chain
+                    if chain is body:
+                        return [ast.fix_missing_locations(x) for x in pre + body]
+                else:
+                    tail.orelse = body
+                tail = "closed"
+                break
+            node = ast.If(test=c, body=body or [ast.Pass()], orelse=[], lineno=case.pattern.lineno if hasattr(case.pattern, "lineno") else st.lineno, col_offset=0)
+            if chain is None:
+                chain = [node]
+            else:
+                tail.orelse = [node]
+            tail = node
+    except ValueError:
+        return None
+    out = pre + (chain or [])
+    for x in out:
+        ast.fix_missing_locations(x)
+    return out
